@@ -454,7 +454,11 @@ def rule_D_calls(toks, au, names):
     out, i, n = [], 0, len(toks)
     while i < n:
         t = toks[i]
-        if t.kind == "id" and t.text in names and _stmt_pos(out):
+        # `.method` entries: statements  IDENT.method(...);  on ANY bare local (a statistics counter, whatever it is called): the result
+        # is discarded and the receiver is a plain identifier, so nothing the contracts talk about can depend on it
+        by_method = t.kind == "id" and _stmt_pos(out) and i + 3 < n and is_p(toks[i + 1], ".") and ("." + toks[i + 2].text) in names \
+            and is_p(toks[i + 3], "(") and t.text not in ("self", "st", "fx")
+        if (t.kind == "id" and t.text in names and _stmt_pos(out)) or by_method:
             k = i + 1
             depth = 0
             while not (is_p(toks[k], ";") and depth == 0):
